@@ -226,43 +226,55 @@ def rule_const(ctx):
   f = c.methods["RandomBits"]
   w = sym.Walker(repo, f)
   w.run()
-  consts = {}
-  for nm in ("a", "c", "mask"):
-    ss = assigns_of(f.node, nm)
-    consts[nm] = fold.try_fold(ss[0].value) if len(ss) == 1 else None
   want = {"a": 0x5DEECE66D, "c": 0xB, "mask": (1 << 48) - 1}
-  ctx.record(R, f.where, "LCG constants", consts == want, "multiplier 0x5DEECE66D, increment 0xB, 48-bit mask" if consts == want else
-             "constants %s differ from java.util.Random's %s" % (consts, want))
   A, Cc, M = Poly.const(want["a"]), Poly.const(want["c"]), Poly.const(want["mask"])
   seed = P("param", "seed")
-  init = [e for e in w.events if e.kind == "assign" and e.data["name"] == "state" and not e.state.tags]
-  ok = bool(init) and all(as_poly(e.data["value"]) == sym.mk("band", sym.mk("bxor", e.state.env.get("seed", seed) if False else as_poly(seed_value(e)), A), M) for e in init)
-  ctx.record(R, f.where, "seed scrambling", ok, "state0 = (seed ^ a) & mask" if ok else "initial state is not (seed ^ 0x5DEECE66D) & mask")
   loops = [i for i in w.loop_info.values() if isinstance(i["node"], ast.For)]
-  ok_step = ok_out = ok_store = False
+  ok_step = ok_out = ok_store = ok_seed = False
+  consts = {}
   if len(loops) == 1 and loops[0].get("visits"):
     info = loops[0]
     for kind, val, s, since, visit in info["body_paths"]:
       evs = [w.events[i] for i in s.trace[since:]]
-      sh = as_poly(visit["head"].env.get("state"))
-      st_as = [e for e in evs if e.kind == "assign" and e.data["name"] == "state"]
-      if len(st_as) == 1 and as_poly(st_as[0].data["value"]) == sym.mk("band", sh * A + Cc, M):
-        ok_step = True
-        new_state = as_poly(st_as[0].data["value"])
-        outs = [e for e in evs if e.kind == "assign" and e.data["name"] == "output"]
-        if len(outs) == 1 and as_poly(outs[0].data["value"]) == sym.mk("shr", new_state, Poly.const(16)):
-          ok_out = True
-          stores = [e for e in evs if e.kind == "store"]
-          if len(stores) == 1:
-            v = as_poly(stores[0].data["value"]).as_atom()
-            t = stores[0].data["target"]
-            if v is not None and v.kind == "pm" and bitwidth.lit_of(v.args[1]) == "to_bytes" and v.args[0] == as_poly(outs[0].data["value"]) \
-               and v.args[2] == Poly.const(4) and isinstance(t.slice, ast.Slice):
-              lo = ast.unparse(t.slice.lower) if t.slice.lower else ""
-              hi = ast.unparse(t.slice.upper) if t.slice.upper else ""
-              jn = ast.unparse(info["node"].target)
-              if lo.replace(" ", "") == "4*%s" % jn and hi.replace(" ", "") == "4*(%s+1)" % jn:
-                ok_store = True
+      # the state: the loop-carried variable updated to (a * state + c) & mask (whatever it is called and however the step is spelled)
+      new_state = None
+      for nm in info["modified"]:
+        sh_, se_ = visit["head"].env.get(nm), s.env.get(nm)
+        if not isinstance(sh_, Poly) or not isinstance(se_, Poly) or sh_.as_atom() is None:
+          continue
+        ua = se_.as_atom()
+        if ua is not None and ua.kind == "band" and len(ua.args) == 2:
+          for lin, msk in ((ua.args[0], ua.args[1]), (ua.args[1], ua.args[0])):
+            lin, msk = as_poly(lin), as_poly(msk)
+            if msk.as_int() is None or lin.degree_in(sh_.as_atom()) != 1:
+              continue
+            c0 = lin.subst(sh_.as_atom(), Poly.const(0))
+            a0 = lin.subst(sh_.as_atom(), Poly.const(1)) - c0
+            if a0.as_int() is not None and c0.as_int() is not None:
+              consts = {"a": a0.as_int(), "c": c0.as_int(), "mask": msk.as_int()}
+              new_state = se_
+              pre_ = visit["pre_env"].get(nm)
+              if isinstance(pre_, Poly):
+                pa_ = pre_.as_atom()
+                if pa_ is not None and pa_.kind == "band" and len(pa_.args) == 2:
+                  for x_, m_ in ((pa_.args[0], pa_.args[1]), (pa_.args[1], pa_.args[0])):
+                    xa_ = as_poly(x_).as_atom()
+                    if as_poly(m_) == M and xa_ is not None and xa_.kind == "bxor" and len(xa_.args) == 2 and any(as_poly(z) == A for z in xa_.args):
+                      ok_seed = True
+      if new_state is None:
+        continue
+      ok_step = consts == want
+      stores = [e for e in evs if e.kind == "store"]
+      if len(stores) == 1:
+        v = as_poly(stores[0].data["value"]).as_atom()
+        if v is not None and v.kind == "pm" and bitwidth.lit_of(v.args[1]) == "to_bytes" and v.args[2] == Poly.const(4):
+          ok_out = as_poly(v.args[0]) == sym.mk("shr", new_state, Poly.const(16))
+          lo, hi, stp = stores[0].data.get("slice_lo"), stores[0].data.get("slice_hi"), stores[0].data.get("slice_step")
+          k = as_poly(visit["k"])
+          ok_store = lo is not None and hi is not None and stp is None and (lo - k * 4).is_zero() and (hi - k * 4 - 4).is_zero()
+  ctx.record(R, f.where, "LCG constants", consts == want, "multiplier 0x5DEECE66D, increment 0xB, 48-bit mask" if consts == want else
+             "constants %s differ from java.util.Random's %s" % (consts, want))
+  ctx.record(R, f.where, "seed scrambling", ok_seed, "state0 = (seed ^ a) & mask" if ok_seed else "initial state is not (seed ^ 0x5DEECE66D) & mask")
   ctx.record(R, f.where, "state update", ok_step, "state = (state * a + c) & mask" if ok_step else "state update is not the 48-bit LCG step")
   ctx.record(R, f.where, "output = state >> 16", ok_out, "upper 32 bits of the new state" if ok_out else "output is not the new state >> 16")
   ctx.record(R, f.where, "4 bytes per step at ba[4j:4j+4]", ok_store, "one 4-byte word per LCG step, stored at consecutive offsets" if ok_store else
